@@ -32,7 +32,7 @@ def run(tier, seed):
     if r.violated:
         # only the liveness property can be violated here: the lookup machine must terminate
         v.violation("lookup machine does not terminate / TLC property violated: %s" % r.violated, {})
-    expect = len(tabs) + 460 + 6 * len(dic)
+    expect = len(tabs) + 690 + 6 * len(dic)
     recs = {}
     for x in r.records:
         recs[repr(sorted(x["req"].items()))] = x
